@@ -204,6 +204,12 @@ def run_selection(run, case, p, R, unit, delta, rel_tol, all_pairs, exact, via):
     if (len(p) + int(delta * 7)) % 5 == 0:
         poses = np.stack(poses)  # the pose sequence handed over as one N x 4 x 4 array
     snapshot = [P.copy() for P in poses]
+    if unit in "rd" and (n + int(delta * 11)) % 6 == 0:
+        # earlier in the same process the user looked at the per-frame increments, in the other unit
+        from evo.core import lie_algebra as _lie
+        for k in range(min(n - 1, 400)):
+            _lie.so3_log_angle(_lie.relative_so3(poses[k][:3, :3], poses[k + 1][:3, :3]), degrees=(unit == "r"))
+        run.hit("per-frame increments queried in the other angle unit before the selection")
     U = {"f": Unit.frames, "m": Unit.meters, "r": Unit.radians, "d": Unit.degrees}[unit]
     # the mode flag as callers spell it: Python bool, numpy bool (result of a comparison), 0 / 1
     flag = [bool(all_pairs), np.bool_(all_pairs), int(all_pairs)][(n + int(delta * 3)) % 3]
@@ -392,11 +398,17 @@ def k_reuse(run, case):
         return d * 180 / PI if unit == "d" else d
 
     with core.quiet():
-        contracts.outcome_of(metrics.id_pairs_from_delta, poses, draw_delta(arr["p"], arr["R"]), U, 0.1, all_pairs)
+        # (the earlier query may use another unit: degrees before radians and vice versa)
+        U0 = U if unit == "m" or rng.random() < .5 else (Unit.degrees if U is Unit.radians else Unit.radians)
+        d0 = draw_delta(arr["p"], arr["R"])
+        if U0 is not U:
+            d0 = d0 * 180 / PI if U0 is Unit.degrees else d0 * PI / 180
+        contracts.outcome_of(metrics.id_pairs_from_delta, poses, d0, U0, 0.1, all_pairs)
     # in-place edit of the very same list / matrices (as PosePath3D.project does)
     arr2 = gen.traj_arrays(rng, n, stamp_cls="index")
+    edit_p = [0.7, 0.7, 0.0][rng.integers(3)]  # (sometimes nothing is edited: the very same poses again)
     for k in range(n):
-        if rng.random() < .7:
+        if rng.random() < edit_p:
             poses[k][:3, :3] = arr2["R"][k]
             poses[k][:3, 3] = arr2["p"][k]
     p_now = np.array([P[:3, 3] for P in poses])
